@@ -46,12 +46,19 @@ MENUS = (
     ("PNode", "PAny", "PSym"),
     ("HNodeBag", "HNode"),
     ("HNodeEq",),
+    ("HNodeNo",),  # always falsy nodes
+    ("HNodeNo", "HNode", "HSym"),
+    ("HLightNo", "HLight"),
+    ("HLightBag",),
+    ("HMixEq",),
+    ("HLightEq",),
 )
 
 
 def gen_cfg(rng, prop, tier):
     cfg = struct.gen_cfg(rng, "C02", tier, allow_big=False)
     cfg["prop"] = "C19"
+    cfg["odd_names"] = False
     menu = rng.choice(MENUS)
     cfg["menu"] = list(menu)
     cfg["family"] = FAMILY[menu[0]]
